@@ -719,6 +719,32 @@ def sp_key(n):
         return (0, 0)
 
 
+def rule_read_or_none(c, prog, R):
+    """the one place that calls Read::read directly: fills the buffer completely or reports which of the three outcomes
+    (nothing at all / short / full) happened, retrying Interrupted"""
+    allowed = "rbx_types::attributes::reader::read_exact_or_none"
+    fn = prog.fn(allowed)
+    m = [n for n in core.walk_fn(fn) if n.get("k") == "Match" and core.strip(n["e"]).get("m") == "read"]
+    ok = False
+    if m:
+        rows = {}
+        for arm in m[0]["arms"]:
+            ps = core.pat_str(arm["pat"])
+            kinds = {x.get("k") for x in core.walk(arm["body"])}
+            guard = core.fingerprint(arm["guard"], 6) if "guard" in arm else ""
+            rows[ps + ("|" + guard if guard else "")] = kinds
+        zero = [k for k in rows if k.startswith("Result::Ok(0")]
+        intr = [k for k in rows if "Interrupted" in k]
+        err = [k for k in rows if k.startswith("Result::Err") and "Interrupted" not in k]
+        some = [k for k in rows if k.startswith("Result::Ok(") and not k.startswith("Result::Ok(0")]
+        ok = bool(zero) and "Break" in rows[zero[0]] and bool(intr) and "Ret" not in rows[intr[0]] and "Break" not in rows[intr[0]] and bool(err) and "Ret" in rows[err[0]] \
+            and bool(some) and "Break" not in rows[some[0]] and "Ret" not in rows[some[0]]
+    if ok:
+        c.ok(R, "read_exact_or_none:retry-interrupted")
+    else:
+        c.violation(R, "read_exact_or_none|arms", "read_exact_or_none must treat Ok(0) as EOF (break), retry ErrorKind::Interrupted, and return other errors; an arm is missing or changed (a successful partial read must go round the loop again, not leave it)", fn.sp, instance="read_exact_or_none:retry-interrupted")
+
+
 def rule_read(c, prog, g, dreach):
     R = "C13.read"
     c.rule(R, "raw Read::read is called only inside read_exact_or_none, whose loop retries Interrupted and treats Ok(0) as EOF; everything else uses read_exact / take().read_to_end / xml-rs")
@@ -733,24 +759,7 @@ def rule_read(c, prog, g, dreach):
             c.ok(R, u)
         else:
             c.violation(R, f"raw-read|{u}", f"{u} calls Read::read directly: a short read or an Interrupted error changes the result", prog.fns[u].sp, instance=u)
-    fn = prog.fn(allowed)
-    m = [n for n in core.walk_fn(fn) if n.get("k") == "Match" and core.strip(n["e"]).get("m") == "read"]
-    ok = False
-    if m:
-        rows = {}
-        for arm in m[0]["arms"]:
-            ps = core.pat_str(arm["pat"])
-            kinds = {x.get("k") for x in core.walk(arm["body"])}
-            guard = core.fingerprint(arm["guard"], 6) if "guard" in arm else ""
-            rows[ps + ("|" + guard if guard else "")] = kinds
-        zero = [k for k in rows if k.startswith("Result::Ok(0")]
-        intr = [k for k in rows if "Interrupted" in k]
-        err = [k for k in rows if k.startswith("Result::Err") and "Interrupted" not in k]
-        ok = bool(zero) and "Break" in rows[zero[0]] and bool(intr) and "Ret" not in rows[intr[0]] and "Break" not in rows[intr[0]] and bool(err) and "Ret" in rows[err[0]]
-    if ok:
-        c.ok(R, "read_exact_or_none:retry-interrupted")
-    else:
-        c.violation(R, "read_exact_or_none|arms", "read_exact_or_none must treat Ok(0) as EOF (break), retry ErrorKind::Interrupted, and return other errors; an arm is missing or changed", fn.sp, instance="read_exact_or_none:retry-interrupted")
+    rule_read_or_none(c, prog, R)
     # Read::read_to_end behind take(len): on the caller's stream a short result is a truncated input and must be
     # rejected (compare the length); on an in-memory chunk (&[u8]) truncation was already rejected by Chunk::decode
     MEM = re.compile(r"^(&(mut )?)*\[u8\]$|^(&(mut )?)+\[u8\]$")
